@@ -5,6 +5,7 @@ package e2e
 import (
 	"bytes"
 	"fmt"
+	"github.com/streamingfast/substreams/pipeline/exec"
 	"hash/fnv"
 	"os"
 	"strings"
@@ -33,6 +34,9 @@ type c03Case struct {
 	// SkipSeed != 0: heights are not contiguous along a branch (chains whose block numbers are slots): a block
 	// chosen by the seed is numbered parent+2 instead of parent+1
 	SkipSeed uint64 `json:"skip_seed,omitempty"`
+	// Stop > 0: the request is bounded, its stop block is Prefix+Stop (inside the fork history): the stream ends when
+	// the first block at or above it arrives, whatever happened to the blocks below it before
+	Stop uint64 `json:"stop,omitempty"`
 }
 
 // applySkips renumbers the blocks (given parents first) so that some of them skip a height.
@@ -200,6 +204,30 @@ func genC03(t *rapid.T) c03Case {
 	for i := range c.Prog.Graph.Mods {
 		c.Prog.Graph.Mods[i].Initial = 1 // every module starts at the request's start block: no back-processing
 	}
+	if rapid.IntRange(0, 2).Draw(t, "latestores") == 0 {
+		// some stores start a few blocks later, inside the fork history: a reorg may undo a store's very first block.
+		// Only stores that read the chain themselves (always an input available), never the output module.
+		for i := range c.Prog.Graph.Mods {
+			m := &c.Prog.Graph.Mods[i]
+			if m.Kind != "store" {
+				continue
+			}
+			hasSource := false
+			for _, in := range m.Inputs {
+				if in.T == "source" {
+					hasSource = true
+				}
+			}
+			if hasSource {
+				m.Initial = rapid.SampledFrom([]uint64{1, 2, 3, 4}).Draw(t, "storeinit")
+			}
+		}
+		if _, err := exec.NewOutputModuleGraph(c.Prog.Maps()[len(c.Prog.Maps())-1], false, c.Prog.Modules(), 0); err != nil {
+			for i := range c.Prog.Graph.Mods {
+				c.Prog.Graph.Mods[i].Initial = 1
+			}
+		}
+	}
 	maps := c.Prog.Maps()
 	c.Output = maps[len(maps)-1]
 	if rapid.Bool().Draw(t, "anyoutput") {
@@ -237,7 +265,7 @@ type c03Ref struct {
 }
 
 // runChainReference executes the fork-free chain (blocks given by id/num/parent) and records the stores after every block.
-func runChainReference(p pgen.Prog, output string, chain []world.Step, ref *c03Ref, start, prefix uint64) error {
+func runChainReference(p pgen.Prog, output string, chain []world.Step, ref *c03Ref, start, prefix, stop uint64) error {
 	dir := newDir()
 	defer os.RemoveAll(dir)
 	var ids []string
@@ -251,7 +279,7 @@ func runChainReference(p pgen.Prog, output string, chain []world.Step, ref *c03R
 			ref.stores[chainKey(ids)] = snapStores(st.Num, m)
 		}
 	}
-	res := world.Run(p.Modules(), world.Request{Prod: false, Start: int64(start), Stop: 0, Output: output}, cfg)
+	res := world.Run(p.Modules(), world.Request{Prod: false, Start: int64(start), Stop: stop, Output: output}, cfg)
 	if res.Err != nil {
 		return res.Err
 	}
@@ -288,6 +316,13 @@ func checkC03(c c03Case) (*ev.Failure, c03Stats) {
 		return nil, st
 	}
 	steps = append(prefixSteps(P), steps...)
+	stopAbs := uint64(0)
+	if c.Stop > 0 {
+		stopAbs = P + c.Stop
+		if stopAbs <= start {
+			stopAbs = start + 1
+		}
+	}
 	kinds := c.Prog.StoreKinds()
 	byID := map[string]world.ForkBlock{}
 	for _, b := range blocks {
@@ -306,7 +341,7 @@ func checkC03(c c03Case) (*ev.Failure, c03Stats) {
 			b := byID[id]
 			chain = append(chain, world.Step{Num: b.Num, ID: b.ID, Parent: b.Parent, Step: bstream.StepNewIrreversible, LIBNum: b.Num, LIBID: b.ID})
 		}
-		return runChainReference(c.Prog, c.Output, chain, ref, start, P)
+		return runChainReference(c.Prog, c.Output, chain, ref, start, P, stopAbs)
 	}
 
 	seenNew := map[string]int{}
@@ -385,7 +420,7 @@ func checkC03(c c03Case) (*ev.Failure, c03Stats) {
 				}
 			}
 		}
-		res := world.Run(c.Prog.Modules(), world.Request{Prod: prod, Start: int64(start), Stop: 0, Output: c.Output}, cfg)
+		res := world.Run(c.Prog.Modules(), world.Request{Prod: prod, Start: int64(start), Stop: stopAbs, Output: c.Output}, cfg)
 		os.RemoveAll(dir)
 		if failure != nil {
 			return failure, st
@@ -459,6 +494,24 @@ func checkC03(c c03Case) (*ev.Failure, c03Stats) {
 			}
 			undoSinceHeight[d.Num] = true
 			held = append(held, d)
+		}
+		if stopAbs != 0 {
+			// a bounded request ends when the first block at or above the stop block arrives: the chain the client must
+			// hold is the canonical chain of the signals up to that one, whatever the stream actually processed
+			canonical = nil
+			for _, s := range steps {
+				if s.Num < P+1 {
+					continue
+				}
+				if s.Step.Matches(bstream.StepNew) {
+					if s.Num >= stopAbs {
+						break
+					}
+					canonical = append(canonical, s.ID)
+				} else if s.Step.Matches(bstream.StepUndo) && len(canonical) > 0 {
+					canonical = canonical[:len(canonical)-1]
+				}
+			}
 		}
 		// at the end: exactly the outputs of the canonical chain
 		if err := ensureRef(canonical); err != nil {
@@ -540,9 +593,15 @@ func TestC03Forks(t *testing.T) {
 		if rapid.IntRange(0, 2).Draw(rt, "skips") == 0 {
 			c.SkipSeed = rapid.Uint64Range(1, 1<<30).Draw(rt, "skipseed")
 		}
+		if rapid.IntRange(0, 2).Draw(rt, "bounded") == 0 {
+			c.Stop = rapid.Uint64Range(2, 8).Draw(rt, "stop")
+		}
 		r.Begin(c)
 		f, st := checkC03(c)
 		cl := []string{fmt.Sprintf("undos<=%d", bucketInt(st.undos))}
+		if c.Stop != 0 {
+			cl = append(cl, "stop-block-inside-the-fork-history")
+		}
 		if c.SkipSeed != 0 {
 			cl = append(cl, "heights-skipped")
 		}
